@@ -5,7 +5,7 @@ Rec == ndJsonDeserialize(IOEnv.VERIF_TRACE)
 VARIABLE l
 tvars == <<resp, stage, result, l>>
 E == Rec[l]
-TInit == l = 1 /\ resp = [msgs |-> <<>>, attrs |-> 0, events |-> 0, data |-> FALSE] /\ stage = "bridged" /\ result = Pending /\ TLCSet(1, 1)
+TInit == l = 1 /\ resp = [msgs |-> <<>>, attrs |-> 0, events |-> 0, data |-> "none"] /\ stage = "bridged" /\ result = Pending /\ TLCSet(1, 1)
 
 KindsOf(p) == [i \in 1..Len(p.msgs) |-> p.msgs[i].kind]
 CtxSame(seen, env, withInfo) ==
@@ -17,7 +17,7 @@ TrBridge ==
     /\ resp' = E.desc /\ stage' = "bridged" /\ result' = BridgeOf(E.desc)
     /\ Chk("BIND", "built_response_matches_its_description", l,
            KindsOf(E.in) = [i \in 1..Len(E.desc.msgs) |-> E.desc.msgs[i].kind]
-           /\ Len(E.in.attrs) = E.desc.attrs /\ Len(E.in.events) = E.desc.events /\ E.in.has_data = E.desc.data)
+           /\ Len(E.in.attrs) = E.desc.attrs /\ Len(E.in.events) = E.desc.events /\ E.in.has_data = (E.desc.data # "none") /\ (E.desc.data = "empty" => E.in.data = ""))
     /\ Chk("C11", "bridging_never_panics", l, E.verdict \in {"ok", "err"})
     /\ Chk("C11", "conversion_fails_exactly_when_a_custom_typed_message_is_present", l,
            (E.verdict = "err") <=> HasCustom(E.desc))
